@@ -68,6 +68,14 @@ func genC03(r *rand.Rand, tier string, idx int) *World {
 		}
 		assign = append(assign, k)
 	}
+	if chance(r, 0.4) {
+		// nodes the pods cannot run on (untolerated taint): listed, but not targeted - percentages
+		// must not be resolved against them
+		for i, k := 0, 1+r.IntN(4); i < k; i++ {
+			w.Nodes = append(w.Nodes, &NodeDef{Name: nodeName(n + i), Taints: []string{"dedicated:NoSchedule"}})
+			assign = append(assign, "none")
+		}
+	}
 	b, _ := json.Marshal(assign)
 	w.Extra["assign"] = string(b)
 	w.Extra["rounds"] = pick(r, "0", "3", "3")
@@ -165,7 +173,7 @@ func bodyC03(s *Sim) {
 func init() {
 	register(&Profile{Name: "C03", Decide: []string{"C03"}, Quick: 6000, Thorough: 300000, Gen: genC03, Body: bodyC03,
 		NonVacuous: []string{"C03.update-del"}, Chunk: 200,
-		Rule: "State injection: 1-12 (thorough: 1-40) targeted nodes, each assigned one of {no pod, up-to-date available/unavailable, outdated available/unavailable, outdated Terminating, stuck unscheduled >10 min or Terminating past grace, adopted old-DaemonSet pod}, maxUnavailable and maxPodSchedulerFailure over absolute and percent values, PRNG-chosen iteration order of the controller's per-node map, then one (or four) syncs of the active replica set through the real Reconcile with seeded interleaving of its parallel deletes and optional API faults."})
+		Rule: "State injection: 1-12 (thorough: 1-40) targeted nodes (plus, in 40% of the runs, 1-4 listed nodes the pods cannot run on), each assigned one of {no pod, up-to-date available/unavailable, outdated available/unavailable, outdated Terminating, stuck unscheduled >10 min or Terminating past grace, adopted old-DaemonSet pod}, maxUnavailable and maxPodSchedulerFailure over absolute and percent values, PRNG-chosen iteration order of the controller's per-node map, then one (or four) syncs of the active replica set through the real Reconcile with seeded interleaving of its parallel deletes and optional API faults."})
 }
 
 // ---------------------------------------------------------------------------------------
@@ -749,7 +757,10 @@ func genC09Inject(r *rand.Rand, tier string, idx int) *World {
 	e.Strategy.MaxParallel = i32(pick(r, int32(1), 2, 5, 250))
 	w.EDS = []*EDSDef{e}
 	w.Extra["requests"] = fmt.Sprint(5 + r.IntN(16))
-	w.Extra["update"] = pick(r, "0", "1", "2", "2")
+	w.Extra["update"] = pick(r, "0", "1", "2", "2", "3")
+	if w.Extra["update"] == "3" {
+		e.Strategy.Canary = &CanaryDef{Replicas: pick(r, "1", "2"), ValidationMode: "manual"}
+	}
 	w.Cfg = Config{Kubelet: true, MapOrder: pick(r, 0, 1, 2), Stall: chance(r, 0.3)}
 	if idx%3 == 2 {
 		w.Cfg.PReject = pick(r, 0.02, 0.1)
@@ -783,6 +794,23 @@ func bodyC09Inject(s *Sim) {
 			s.userSetTemplate(def.NS, def.Name, l)
 			s.RunTask(CtrlEDS, key)
 			s.RunTask(CtrlEDS, key)
+		}
+		if i == reqs/2 && s.W.Extra["update"] == "3" {
+			// a canary whose replica set changes role right after one of its syncs: validated (or
+			// failed) at once, the ExtendedDaemonSet reconciled, and the replica sets requested
+			// again at the same instant
+			s.userSetTemplate(def.NS, def.Name, "B")
+			s.RunTask(CtrlEDS, key)
+			s.RunTask(CtrlEDS, key)
+			s.Advance(s.maxFrequency() + time.Second)
+			for _, rs := range s.Store.ERSs() {
+				s.RunTask(CtrlERS, types.NamespacedName{Namespace: rs.Namespace, Name: rs.Name})
+			}
+			s.RunCLI(pick(r, "canary-validate", "canary-validate", "canary-fail"), key)
+			s.RunTask(CtrlEDS, key)
+			for _, rs := range s.Store.ERSs() {
+				s.RunTask(CtrlERS, types.NamespacedName{Namespace: rs.Namespace, Name: rs.Name})
+			}
 		}
 		ds := s.advanceCandidates()
 		s.Advance(ds[r.IntN(len(ds))])
